@@ -1,16 +1,13 @@
 (* Properties/C11.v — Binary Merkle trees behave like fresh trees across reset and reload.
    Abstract state (L3) = the list of leaves pushed since the last reset / recorded up to the
    reload point; `spec_run` gives what a fresh tree holding exactly those leaves reports. *)
-From FV Require Import Base.Bytes Base.U64 Base.Map Merkle.RFC6962 Merkle.BinaryModel Merkle.BinaryHistory Merkle.ProveProofs.
+From FV Require Import Base.Bytes Base.U64 Base.Map Merkle.RFC6962 Merkle.BinaryModel Merkle.BinaryHistory Merkle.ProveProofs Merkle.PositionPathProofs.
 Open Scope N_scope.
 
-(* FULL statement: every history of pushes (< 2^63 leaves), resets, reloads at a recorded count,
-   root / count queries and proof requests for ANY index.  Two parts of it are not proved in full
-   generality for the storage-backed tree — in-range proof requests at counts above 128 (proved
-   under the computable premise `sides_ok`, which is checked by computation up to 128 leaves; see
-   C10) and reloads at counts above 4096 (peak positions checked by computation up to 4096 only) —
-   so it is kept as a definition, never as a theorem; the proved scopes are `hist_ok` and the
-   larger `hist_okp` below. *)
+(* FULL statement (PROVED below as C11_refine_full): every history of pushes (< 2^63 leaves), resets,
+   reloads at a recorded count, root / count queries and proof requests for ANY index behaves like
+   the fresh tree.  The peak positions used by reloads and the side positions used by proofs are
+   characterised in general in Merkle/PositionPathProofs.v (no computation bound). *)
 Section Full.
   Context {D : Type} (leaf_sum : bytes -> D) (node_sum : D -> D -> D) (empty_sum : D).
   Fixpoint full_scope (ls : list bytes) (ops : list hop) : Prop :=
@@ -24,11 +21,42 @@ Section Full.
         end /\ full_scope (fst (spec_step leaf_sum node_sum empty_sum ls o)) r
     end.
 End Full.
-Definition C11_full_statement : Prop :=
+Theorem C11_refine_full :
   forall (D : Type) (leaf_sum : bytes -> D) (node_sum : D -> D -> D) (empty_sum : D) (ops : list hop),
     full_scope leaf_sum node_sum empty_sum [] ops ->
     m_run leaf_sum node_sum empty_sum tree_new ops = Some (spec_run leaf_sum node_sum empty_sum [] ops).
+Proof.
+  intros D lf nd e ops H.
+  apply (history_refines_full lf nd e ops tree_new []); [apply tinv_new | reflexivity | exact H].
+Qed.
+Print Assumptions C11_refine_full.
 
+(* the same from any state satisfying the invariant *)
+Theorem C11_refine_full_from_any_state :
+  forall (D : Type) (leaf_sum : bytes -> D) (node_sum : D -> D -> D) (empty_sum : D)
+         (ops : list hop) (t : tree) (ls : list bytes),
+    tinv leaf_sum node_sum empty_sum t ls -> lenN ls < 2 ^ 63 -> full_scope leaf_sum node_sum empty_sum ls ops ->
+    m_run leaf_sum node_sum empty_sum t ops = Some (spec_run leaf_sum node_sum empty_sum ls ops).
+Proof. exact @history_refines_full. Qed.
+Print Assumptions C11_refine_full_from_any_state.
+
+(* the peak positions the code computes from k equal the binary decomposition of k, and the side
+   positions it computes for (i, count) are those of the RFC sibling ranges: all sizes below 2^63 *)
+Theorem C11_peaks_all : forall k, k < 2 ^ 63 -> peaks_ok k = true.
+Proof. exact peaks_ok_all. Qed.
+Print Assumptions C11_peaks_all.
+Theorem C11_sides_all : forall c i, c < 2 ^ 63 -> i < c -> sides_ok i c = true.
+Proof. exact sides_ok_all. Qed.
+Print Assumptions C11_sides_all.
+
+(* non-vacuity of the full scope *)
+Example C11_full_scope_inhabited :
+  full_scope (fun _ => tt) (fun _ _ => tt) tt []
+    [HPush [1]; HPush [2]; HPush [3]; HProve 1; HPush [4]; HPush [5]; HProve 4; HLoad 3; HProve 2; HRoot;
+     HPush [6]; HProve 0; HReset; HPush [7]; HProve 0; HProve 9].
+Proof. vm_compute. repeat split; auto; try discriminate; try (intros H; discriminate H). Qed.
+
+(* EARLIER partial results, kept (their scopes are included in the full scope above). *)
 (* PROVED: every history of pushes, resets, reloads at a recorded count (whose peak positions
    were checked: all counts up to 4096 are, by C11_peaks_checked), root / leaf-count queries and
    proof requests at or beyond the current count behaves like the fresh tree. *)
